@@ -309,6 +309,8 @@ def scripts(cs):
 def run_scripts(ctx, R, FatFileSystem):
     for ft in ('fat12', 'fat16', 'fat32'):
         for cs_bps, spc in ((512, 1), (512, 2)):
+            if not (ctx.thorough or ctx.widen) and spc != (2 if ft == 'fat16' else 1):
+                continue            # quick tier: one cluster size per FAT type
             g = fatimg.Geometry(ft, 160, spc=spc, bps=cs_bps, nfats=2, root_entries=128, fsinfo=True, type_string=True)
             for label, ops in scripts(g.cs):
                 b = fatimg.Builder(g, ctx.rng)
